@@ -149,6 +149,39 @@ Proof.
     unfold expect. rewrite Aw1, Epc. left. reflexivity.
 Qed.
 
+(* where the slots of the new ring come from *)
+Lemma pstep_origin m cfg i ps R' ps' e :
+  Inv lo cfg -> nth_error (g_prods cfg) i = Some ps ->
+  pstep m (g_ring cfg) (Z.of_nat (S i)) ps = (R', ps', Some e) ->
+  forall s', In s' (r_slots R') ->
+    (exists s, In s (r_slots (g_ring cfg)) /\ s_pos s = s_pos s' /\ s_owner s = s_owner s') \/ r_tail (g_ring cfg) <= s_pos s'.
+Proof.
+  intros HI Hi Hstep.
+  destruct (pstep_cases lo m cfg i ps R' ps' e HI Hi Hstep) as (typ & body & Aw & Ep & Ec & Eh & Hcase).
+  cbn zeta in Hcase.
+  assert (SAME : r_slots R' = r_slots (g_ring cfg) -> forall s', In s' (r_slots R') ->
+            (exists s, In s (r_slots (g_ring cfg)) /\ s_pos s = s_pos s' /\ s_owner s = s_owner s') \/ r_tail (g_ring cfg) <= s_pos s').
+  { intros E s' Hs'. rewrite E in Hs'. left. exists s'. auto. }
+  assert (STORE : forall p f, (forall s, s_pos (f s) = s_pos s /\ s_owner (f s) = s_owner s) ->
+            r_slots R' = upd_slot (r_slots (g_ring cfg)) p f -> forall s', In s' (r_slots R') ->
+            (exists s, In s (r_slots (g_ring cfg)) /\ s_pos s = s_pos s' /\ s_owner s = s_owner s') \/ r_tail (g_ring cfg) <= s_pos s').
+  { intros p f Hf E s' Hs'. rewrite E in Hs'. left. destruct (upd_slot_in _ _ _ _ Hs') as [H | (sx & Hsx & _ & ->)].
+    - exists s'. auto.
+    - exists sx. destruct (Hf sx) as (A & B). auto. }
+  destruct Hcase as [(Q & Et & Es & Ek & Er & A1 & A2) | [(Q & ER & Eps & A1) | [(hd & tl & pd & t2 & Epc & Ee & Hne & ER & Eps) |
+      [(hd & tl & pd & Epc & Et & Hpd & Hfit & Ee & ER & Eps) | [(tl & pd & Epc & Hm & Ee & ER & Eps) | [(p & Epc & Hm & Ee & ER & Eps) |
+      [(p & Epc & Ee & ER & Eps) | (p & Epc & Hm & Ee & ER & Eps)]]]]]]].
+  - apply SAME. exact Es.
+  - subst R'. apply SAME. reflexivity.
+  - subst R'. apply SAME. reflexivity.
+  - subst R'. cbn [set_slots set_tail r_slots]. intros s' Hs'. apply in_app_or in Hs'. destruct Hs' as [H | H]; [left; exists s'; auto | right].
+    rewrite Et. unfold claim_slots in H. destruct (pd =? 0); cbn [app In] in H; repeat destruct H as [H | H]; try contradiction; subst s'; cbn [s_pos]; lia.
+  - subst R'. apply (STORE tl (set_hdr pd PAD)); [intros s; split; reflexivity | reflexivity].
+  - subst R'. apply (STORE p (set_hdr (- rl_of body) typ)); [intros s; split; reflexivity | reflexivity].
+  - subst R'. apply (STORE p (set_body body)); [intros s; split; reflexivity | reflexivity].
+  - subst R'. apply (STORE p (set_len (rl_of body))); [intros s; split; reflexivity | reflexivity].
+Qed.
+
 Lemma unb_ok_frame R R' u :
   r_cap R' = r_cap R -> r_head R' = r_head R -> r_tail R <= r_tail R' ->
   (forall s', In s' (r_slots R') -> owner_dead s' -> In s' (r_slots R)) ->
